@@ -194,7 +194,7 @@ def floors(tier):
     return {"distinct_nontrivial": 300, "re:ExceptIf(@.*)?\\.enter": 500, "re:Alternative(@.*)?\\.enter": 500,
             "cls:shape:ref_in_ref": 20, "cls:shape:ref_in_alt": 20, "cls:shape:alt_in_ref": 20, "cls:shape:alt_chain": 20,
             "cls:overridden": 200, "cls:alt_fired": 200, "cls:caching_off": 50, "cls:conclusions_spelled_positionally": 100, "cls:preceded_by_an_evaluation_in_which_user_code_raised": 60, "cls:earlier_rule_concluded_a_subclass_for_the_same_objects": 100, "cls:bare_call_as_branch_condition": 150, "cls:or_of_operands_with_different_variables": 100,
-            "cls:nested_query_as_whole_branch_condition": 60, "cls:function_predicate_in_branch_condition": 150, "cls:for_all_as_branch_condition": 100, "cls:conclusion_field_is_a_nested_query": 100, "cls:matches_are_parent_element_pairs": 300, "cls:parent_with_several_elements": 250,
+            "cls:nested_query_as_whole_branch_condition": 60, "cls:function_predicate_in_branch_condition": 150, "cls:for_all_as_branch_condition": 100, "cls:conclusion_field_is_a_nested_query": 100, "cls:matches_are_parent_element_pairs": 300, "cls:parent_with_several_elements": 250, "cls:conclusion_value_is_a_domain_variable": 60,
             "cls:style:sibling_alternatives": 200, "cls:join_in_tree": 300, "cls:tree_extended_after_it_was_evaluated": 150, "cls:join_item_with_two_links": 200, "cls:alternative_declared_before_refinement": 200, "re:cls:longest_alternative_chain=[3-9]": 50}
 
 
@@ -664,7 +664,9 @@ def gen_flat_case(rng):
             "refalt": rng.choice([None, None, 2, 4]), "alt": rng.choice([None, 0, 2, 4, 99]), "caching": rng.random() < 0.7,
             # (the element is always constrained by the base: a conclusion over an expression that no condition before it has
             #  bound has no assignment to take the value from)
-            "e_in_base": True}
+            "e_in_base": True,
+            # a fifth: every conclusion adds the PARENT VARIABLE itself (a variable with a given domain) instead of a new instance
+            "value_is_parent": rng.random() < 0.2}
 
 
 def check_flat_case(case, ctx):
@@ -702,19 +704,32 @@ def check_flat_case(case, ctx):
             e = flatten(p.items)
             out = let(Out)
             q = infer(entity(out, p.k >= case["k0"], *([e.n >= 1] if case["e_in_base"] else [])))
+        vp = bool(case.get("value_is_parent"))
+        concl = (lambda tag_: p) if vp else (lambda tag_: Out(tag=tag_, src=p, link=e))
         with rule_mode(q):
-            Add(out, Out(tag="base", src=p, link=e))
+            Add(out, concl("base"))
             if case["ref"] is not None:
                 with refinement(e.n > case["ref"]):
-                    Add(out, Out(tag="ref", src=p, link=e))
+                    Add(out, concl("ref"))
                     if case["refalt"] is not None:
                         with alternative(e.n > case["refalt"]):
-                            Add(out, Out(tag="refalt", src=p, link=e))
+                            Add(out, concl("refalt"))
             if case["alt"] is not None:
                 with alternative(e.n > case["alt"]):
-                    Add(out, Out(tag="alt", src=p, link=e))
+                    Add(out, concl("alt"))
         pidx = {id(p_): i for i, p_ in enumerate(ps)}
         for rnd in range(2):
+            if vp:
+                # the concluded objects are the existing parents; how often one parent is concluded (once per element?) is not
+                # specified, which parents are is
+                ctx.cls("cls:conclusion_value_is_a_domain_variable")
+                got_p = {pidx.get(id(o), -1) for o in q.evaluate()}
+                exp_p = {pi for _, pi, _ in exp}
+                if got_p != exp_p:
+                    ctx.fail("CONCLUSIONS:parents:" + ("missing" if exp_p - got_p else "") + ("+extra" if got_p - exp_p else ""),
+                             {"evaluation": rnd + 1, "missing": sorted(exp_p - got_p), "extra": sorted(got_p - exp_p)})
+                    return
+                continue
             got = [(o.tag, pidx.get(id(o.src), -1), getattr(o.link, "n", "?")) if type(o) is Out else ("NOT_AN_OUT", -1, -1)
                    for o in q.evaluate()]
             if Counter(got) != Counter(exp):
